@@ -442,6 +442,15 @@ type C07Profile struct {
 	Flags string   `json:"flags"`           // header flags
 	Entry string   `json:"entry,omitempty"` // access of the entry point rule ("" = mr)
 	NoAtt bool     `json:"noatt,omitempty"` // the header does not attach @{exec_path} (child profiles, xtables ...)
+	Local []string `json:"local,omitempty"` // values of a helper variable @{name} of this file, defined before @{exec_path}
+	Tab   bool     `json:"tab,omitempty"`   // values separated (and aligned) with tabs
+}
+
+func (p C07Profile) sep() string {
+	if p.Tab {
+		return "\t"
+	}
+	return " "
 }
 
 func (p C07Profile) entryLine() string {
@@ -455,9 +464,12 @@ func (p C07Profile) entryLine() string {
 func (p C07Profile) Text() string {
 	var b strings.Builder
 	b.WriteString("# apparmor.d - test profile\n\nabi <abi/4.0>,\n\ninclude <tunables/global>\n\n")
-	fmt.Fprintf(&b, "@{exec_path} = %s\n", strings.Join(p.Exec, " "))
+	if len(p.Local) > 0 {
+		fmt.Fprintf(&b, "@{name} =%s%s\n", p.sep(), strings.Join(p.Local, p.sep()))
+	}
+	fmt.Fprintf(&b, "@{exec_path} =%s%s\n", p.sep(), strings.Join(p.Exec, p.sep()))
 	for _, m := range p.More {
-		fmt.Fprintf(&b, "@{exec_path} += %s\n", m) // one line per appended value
+		fmt.Fprintf(&b, "@{exec_path} +=%s%s\n", p.sep(), m) // one line per appended value
 	}
 	fl := ""
 	if p.Flags != "" {
@@ -506,6 +518,12 @@ func genC07Set(t *rapid.T, kind string) C07Set {
 		if chance(t, "more", 3) {
 			p.More = subsetOrdered(t, "morev", []string{"@{bin}/extra", "/opt/more/{c,d}", "@{lib}/extra/e"}, 1, 3)
 		}
+		if kind == "exec" && chance(t, "localvar", 3) {
+			// a helper variable of the target's own file, referenced inside a path component
+			p.Local = subsetOrdered(t, "localvals", []string{"acme", "acme-ng", "{tool,Tool}"}, 1, 2)
+			p.Exec = append(p.Exec, pick(t, "localuse", []string{"/opt/lib-@{name}/bin/launcher", "@{lib}/@{name}/run", "/opt/@{name}/@{name}-bin", "@{bin}/x@{name}"}))
+		}
+		p.Tab = chance(t, "tabs", 5)
 		nb := rapid.IntRange(1, 8).Draw(t, "nbody")
 		for j := 0; j < nb; j++ {
 			p.Body = append(p.Body, pick(t, "bodyline", c07BodyLines))
@@ -662,7 +680,13 @@ func c07ExecOracle(s C07Set) error {
 					p = q
 				}
 			}
-			fmt.Fprintf(&pre, "@{verif_exec_%d} = %s\n", i, strings.Join(append(append([]string{}, p.Exec...), p.More...), " "))
+			vals := strings.Join(append(append([]string{}, p.Exec...), p.More...), " ")
+			if len(p.Local) > 0 {
+				// the target's own helper variable, under a name of its own
+				fmt.Fprintf(&pre, "@{verif_name_%d} = %s\n", i, strings.Join(p.Local, " "))
+				vals = strings.ReplaceAll(vals, "@{name}", fmt.Sprintf("@{verif_name_%d}", i))
+			}
+			fmt.Fprintf(&pre, "@{verif_exec_%d} = %s\n", i, vals)
 			fmt.Fprintf(&body, "  @{verif_exec_%d} %s,\n", i, transition)
 		}
 		want, err := ref.CompileOne(pre.String() + "profile s {\n" + body.String() + "}\n")
